@@ -39,8 +39,9 @@ pub fn exec_args(song: &mut Song, tokens: &Vec<Token>) -> Vec<SValue> {
     let tmp_needs_return_values = song.flags.function_needs_return_value;
     song.flags.function_needs_return_value = true;
     for t in tokens {
+        let stack_len = song.stack.len(); // take a value only if this argument pushed one
         exec(song, &vec![t.clone()]);
-        let v = song.stack.pop().unwrap_or(SValue::None);
+        let v = if song.stack.len() > stack_len { song.stack.pop().unwrap_or(SValue::None) } else { SValue::None };
         args.push(v);
     }
     song.flags.function_needs_return_value = tmp_needs_return_values;
@@ -51,8 +52,9 @@ pub fn exec_args(song: &mut Song, tokens: &Vec<Token>) -> Vec<SValue> {
 pub fn exec_value(song: &mut Song, tokens: &Vec<Token>) -> SValue {
     let tmp_needs_return_values = song.flags.function_needs_return_value;
     song.flags.function_needs_return_value = true;
+    let stack_len = song.stack.len(); // take a value only if these tokens pushed one
     exec(song, tokens);
-    let return_value = song.stack.pop().unwrap_or(SValue::from_i(0));
+    let return_value = if song.stack.len() > stack_len { song.stack.pop().unwrap_or(SValue::from_i(0)) } else { SValue::from_i(0) };
     song.flags.function_needs_return_value = tmp_needs_return_values;
     return_value
 }
